@@ -157,6 +157,10 @@ func Point() {
 func WaitIdle() {
 	s := cur.Load()
 	if s == nil {
+		if f := freeCur.Load(); f != nil {
+			f.waitIdle()
+			return
+		}
 		runtime.Gosched()
 		return
 	}
@@ -167,6 +171,10 @@ func WaitIdle() {
 func Go(f func()) {
 	s := cur.Load()
 	if s == nil {
+		if fr := freeCur.Load(); fr != nil {
+			go fr.guard(f)
+			return
+		}
 		go f()
 		return
 	}
@@ -178,6 +186,10 @@ func Go(f func()) {
 func GoDaemon(f func()) {
 	s := cur.Load()
 	if s == nil {
+		if fr := freeCur.Load(); fr != nil {
+			go fr.guard(f)
+			return
+		}
 		go f()
 		return
 	}
@@ -580,6 +592,9 @@ func Select(hasDefault bool, cs ...Case) int {
 func Choose(kind string, n int, cost int) int {
 	s := cur.Load()
 	if s == nil {
+		if f := freeCur.Load(); f != nil {
+			return f.choose(n)
+		}
 		return 0
 	}
 	Point()
@@ -602,6 +617,12 @@ func Quiet(q bool) {
 func Event(format string, a ...any) int {
 	s := cur.Load()
 	if s == nil {
+		if f := freeCur.Load(); f != nil {
+			f.mu.Lock()
+			defer f.mu.Unlock()
+			f.events = append(f.events, fmt.Sprintf(format, a...))
+			return len(f.events) - 1
+		}
 		return -1
 	}
 	s.mu.Lock()
@@ -615,6 +636,11 @@ func Event(format string, a ...any) int {
 func Events() []string {
 	s := cur.Load()
 	if s == nil {
+		if f := freeCur.Load(); f != nil {
+			f.mu.Lock()
+			defer f.mu.Unlock()
+			return append([]string{}, f.events...)
+		}
 		return nil
 	}
 	s.mu.Lock()
